@@ -7,16 +7,18 @@ from hypothesis import strategies as st
 
 from .. import gen
 from ..base import Outcome, run
-from ..cmp import arrays_match, tol_for
+from ..cmp import arrays_match, close, tol_for
 from ..codec import dec
 from ..floxcall import reduce_kwargs, to_dask
+from ..ref import ARG_FUNCS
 from ..sched import ORDERS, OwnedScheduler
+from .c02 import nan_group_mask
 
 ID = "C03"
 RULE = (
     "Hypothesis: reduce cases (all reductions with a combine stage; 1-D labels, optional batch dim) with 3..16 blocks "
     "along the reduced axis, method in {map-reduce, cohorts, None}, and scan cases (nancumsum/ffill/bfill) with 2..12 "
-    "blocks. Systematic sweep per case: split_every = every value 2..nblocks (sampled to <=6 values incl. 2, 3 and "
+    "blocks (arg-reductions compared on NaN-free groups only, nanarg* on not-all-NaN groups: the domain on which they are specified). Systematic sweep per case: split_every = every value 2..nblocks (sampled to <=6 values incl. 2, 3 and "
     "nblocks when nblocks > 7), each graph computed under the synchronous scheduler, the threaded scheduler (4 workers) "
     "and the harness-owned scheduler in orders {seeded random x2, min-key, max-key, depth-first, breadth-first}, optimised "
     "and unoptimised graph. Oracle (metamorphic): every run equals the baseline run (split_every = nblocks, synchronous); "
@@ -134,6 +136,12 @@ def execute(case) -> Outcome:
         out.add(("exception", et, fr), f"baseline {base.describe()} func={func} method={case.get('method')}")
         return out
 
+    # arg-reductions are only specified on NaN-free groups (nanarg*: not-all-NaN groups), as in C01/C02/C06
+    spec = None
+    if not case["scan"] and func in ARG_FUNCS and arr.dtype.kind == "f":
+        by_ = dec(case["by"])
+        labs = by_[~np.isnan(by_)] if by_.dtype.kind == "f" else by_
+        spec = nan_group_mask(arr, by_, np.unique(labs), func)
     nruns = 0
     for si, k in enumerate(splits):
         g = run(lambda: build(case, k)[0])
@@ -165,7 +173,11 @@ def execute(case) -> Outcome:
                 et, fr = r.errsig()
                 out.add(("exception", et, fr), f"[{tag}] {r.describe()} func={func} method={case.get('method')}")
                 continue
-            if not arrays_match(r.value, base.value, rtol, atol):
+            if spec is not None and spec.shape == base.value.shape and r.value.shape == base.value.shape:
+                same = bool(np.all(close(r.value, base.value, rtol, atol) | ~spec))
+            else:
+                same = arrays_match(r.value, base.value, rtol, atol)
+            if not same:
                 what = "tree-shape" if name == "sync" else "schedule"
                 out.add(
                     ("differs", what, "scan" if case["scan"] else "reduce"),
